@@ -150,6 +150,7 @@ def _polygon(ctx):
         rep.check(ok, 'R4', 'angle-term-is-sin-2pi-over-n', where(ab), 'the angle factor of the term is sin(2*pi / items.len())', why)
     # from_radial parametrisation (nest form with collect() read as a fill loop: a `for` with push and a
     # `.map(|..| Line2::new(..)).collect()` are the same loop)
+    fr0 = fr
     fr = f.nest_form(fr, yields=False, collects=True)
     tr = Tracer(fr)
     cfg = CFG(fr)
@@ -205,9 +206,56 @@ def _polygon(ctx):
             except NotNumeric as ex:
                 ok, why = False, str(ex)[:100]
         elif ok_chain:
-            ok, why = False, 'expected exactly one Line2::new per vertex'
+            ok, why = _radial_by_value(f, fr0, d['header'])
     rep.check(ok, 'R4', 'radial-vertex-parametrisation', where(fr), why, why)
     rep.sample('polygon: %s' % why)
+
+
+def _radial_by_value(f, fr0, header):
+    """The edge pushed for vertex k, by value: one iteration of the vertex loop is evaluated symbolically (helpers and trait
+    impls such as `Line2::from(((x1,y1),(x2,y2)))` by their definitions) and the Line2 stored must be
+    start = (r_k sin(k d), r_k cos(k d)), end = (r_(k+1) sin(k d + d), r_(k+1) cos(k d + d)), d = 2 pi / n."""
+    from ..nest import Nest
+    n = Nest(f, fr0, yields=False, collects=True)
+    push = [(bi, t) for bi, t in n.b.calls() if call_matches(t, 'Vec::<T, A>::push') and 'Line2' in (t['args'][1].get('ty', '') if len(t['args']) > 1 else '')]
+    if len(push) != 1:
+        push = [(bi, t) for bi, t in n.b.calls() if call_matches(t, 'Vec::<T, A>::push')]
+    if len(push) != 1:
+        return False, 'expected exactly one edge stored per vertex (%d push sites)' % len(push)
+    bi = push[0][0]
+    around = n.loops_around(bi)
+    if len(around) != 1 or around[0]['header'] != header:
+        return False, 'the edge is not stored in the vertex loop'
+    try:
+        sx, outs = n.iteration(around[0], {bi})
+    except Exception as ex:      # noqa: BLE001
+        return False, 'one iteration of the vertex loop could not be evaluated (%s)' % str(ex)[:60]
+    hits = [o for o in outs if isinstance(o.ret, tuple) and o.ret[0] == 'stopped' and o.ret[1] == bi]
+    if sx.aborted or len(hits) != 1 or len(outs) != 1:
+        return False, 'the edge is stored conditionally (%d of %d paths)' % (len(hits), len(outs))
+    v = n.arg_values(sx, hits[0], bi)[1]
+    st, en = (sfield(v, 'start'), sfield(v, 'end')) if isinstance(v, tuple) and v[0] == 'struct' else (None, None)
+    if st is None or en is None:
+        return False, 'the stored value is not a Line2 with start / end points'
+    item = 'item%d' % header
+    nn = Norm()
+    try:
+        k_ = nn.rf(('app', 'as:f64', (SYM(item + '.0'),)))
+        r1, r2 = nn.rf(SYM(item + '.1.0')), nn.rf(SYM(item + '.1.1'))
+        pts_param = [fr0.local_name(i) for i in fr0.args() if fr0.local_ty(i).startswith('std::vec::Vec<f64')]
+        if len(pts_param) != 1:
+            return False, 'from_radial does not take one Vec<f64> of radii'
+        nsym = nn.rf(('app', 'as:f64', (('app', 'Vec::len', (SYM(pts_param[0]),)),)))
+        dl = nn.const(2 * PI) / nsym
+        want = [[r1 * nn.fn('sin', k_ * dl), r1 * nn.fn('cos', k_ * dl)],
+                [r2 * nn.fn('sin', k_ * dl + dl), r2 * nn.fn('cos', k_ * dl + dl)]]
+        got = [[nn.rf(sfield(st, 'x')), nn.rf(sfield(st, 'y'))], [nn.rf(sfield(en, 'x')), nn.rf(sfield(en, 'y'))]]
+        ok = all(got[i][j].equals(want[i][j]) for i in range(2) for j in range(2))
+    except (NotNumeric, TypeError, AttributeError) as ex:
+        return False, 'vertex coordinates are not arithmetic: %s' % str(ex)[:80]
+    if not ok:
+        return False, 'vertex coordinates are not the radial parametrisation'
+    return True, 'vertex k = (r_k sin(k d), r_k cos(k d)), next = (r_(k+1) sin(k d + d), r_(k+1) cos(k d + d)), d = 2 pi / n (by value)'
 
 
 def _discs(ctx):
